@@ -40,33 +40,57 @@ func (core *JApiCore) addMacro(d *directive.Directive) *jerr.JApiError {
 	}
 
 	core.macro[name] = d
+	core.macroOrder = append(core.macroOrder, name)
 
 	return nil
 }
 
 func (core *JApiCore) checkMacroForRecursion() *jerr.JApiError {
-	for macroName, macro := range core.macro {
-		if je := findPaste(macroName, macro); je != nil {
+	// Walk macros in the order of their definition to keep errors deterministic.
+	done := make(map[string]struct{}, len(core.macro))
+	for _, name := range core.macroOrder {
+		if je := core.findPasteRecursion(core.macro[name], map[string]struct{}{name: {}}, done); je != nil {
 			return je
 		}
+		done[name] = struct{}{}
 	}
 	return nil
 }
 
-func findPaste(macroName string, d *directive.Directive) *jerr.JApiError {
+// findPasteRecursion looks for a PASTE which leads (through any chain of macros)
+// to one of the macros which are being expanded right now.
+func (core *JApiCore) findPasteRecursion(
+	d *directive.Directive,
+	inProgress map[string]struct{},
+	done map[string]struct{},
+) *jerr.JApiError {
 	if d.Type() == directive.Paste {
-		switch d.NamedParameter("Name") {
-		case "":
+		name := d.NamedParameter("Name")
+		if name == "" {
 			return d.KeywordError(fmt.Sprintf("%s (%s)", jerr.RequiredParameterNotSpecified, "Name"))
-
-		case macroName:
+		}
+		if _, ok := inProgress[name]; ok {
 			return d.KeywordError(jerr.RecursionIsProhibited)
 		}
-	} else if d.Children != nil {
-		for _, c := range d.Children {
-			if je := findPaste(macroName, c); je != nil {
+		if _, ok := done[name]; ok {
+			return nil
+		}
+		macro, ok := core.macro[name]
+		if !ok {
+			return nil // will be reported by processPaste if the macro is used
+		}
+		inProgress[name] = struct{}{}
+		for _, c := range macro.Children {
+			if je := core.findPasteRecursion(c, inProgress, done); je != nil {
 				return je
 			}
+		}
+		delete(inProgress, name)
+		return nil
+	}
+	for _, c := range d.Children {
+		if je := core.findPasteRecursion(c, inProgress, done); je != nil {
+			return je
 		}
 	}
 	return nil
